@@ -25,6 +25,15 @@ pub fn dispatch(ctx: &mut Ctx, op: &str, call: &Value) -> Option<Value> {
             "dummy" => bytes_ref::<DummyTestHeader>(ctx),
             _ => out::unsupported(),
         },
+        // clone_dyn of the structure that ref_from_slice yields for the image (C16: cloning is the identity)
+        #[cfg(feature = "builder")]
+        "clone_ref" => match out::arg_str(call, "h") {
+            "bi" => clone_ref::<multiboot2::BootInformationHeader>(ctx),
+            "tag" => clone_ref::<multiboot2::TagHeader>(ctx),
+            "htag" => clone_ref::<multiboot2_header::HeaderTagHeader>(ctx),
+            "dummy" => clone_ref::<DummyTestHeader>(ctx),
+            _ => out::unsupported(),
+        },
         "round8" => {
             let n = out::arg_u64(call, "n") as usize;
             out::val(multiboot2_common::increase_to_alignment(n) as u64, 8)
@@ -54,5 +63,19 @@ fn bytes_ref<H: Header + 'static>(ctx: &Ctx) -> Value {
     match BytesRef::<H>::try_from(ctx.slice()) {
         Ok(r) => out::ok(json!({"at": ctx.off(r.as_ptr()), "len": out::num(r.len())})),
         Err(e) => out::err(&format!("{e:?}")),
+    }
+}
+
+#[cfg(feature = "builder")]
+fn clone_ref<H: Header + 'static>(ctx: &Ctx) -> Value {
+    match DynSizedStructure::<H>::ref_from_slice(ctx.slice()) {
+        Err(e) => out::err(&format!("{e:?}")),
+        Ok(r) => {
+            let b = multiboot2_common::clone_dyn(r);
+            let raw = unsafe { std::slice::from_raw_parts((&*b as *const DynSizedStructure<H>).cast::<u8>(), size_of_val(&*b)) };
+            out::ok(json!({"bytes": out::bytes(raw), "sv": out::num(size_of_val(&*b)),
+                           "al": (&*b as *const DynSizedStructure<H>).cast::<u8>() as usize % 8,
+                           "plen": out::num(b.payload().len())}))
+        }
     }
 }
